@@ -225,6 +225,24 @@ def spawn_workers(prop, tier, seed, nworkers, outdir, extra_env=None, hashseed_o
     return procs
 
 
+def sweep_stale_scratch(max_age_s=4 * 3600):
+    """Workers of a check that was killed from outside leave their scratch directories
+    behind; remove our own (vsim-*) ones that are older than any run can be."""
+    root = kernel.scratch_root()
+    now = time.time()
+    try:
+        names = [n for n in os.listdir(root) if n.startswith("vsim-")]
+    except OSError:
+        return
+    for n in names:
+        p = os.path.join(root, n)
+        try:
+            if os.path.isdir(p) and not os.path.islink(p) and now - os.stat(p).st_mtime > max_age_s:
+                shutil.rmtree(p, ignore_errors=True)
+        except OSError:
+            pass
+
+
 def check_main(prop, tier, seed):
     t0 = time.monotonic()
     mod = importlib.import_module(PROPS[prop])
@@ -235,6 +253,7 @@ def check_main(prop, tier, seed):
     mult = plan.get("workers_multiple_of")
     if mult:
         nworkers = max(mult, nworkers // mult * mult)
+    sweep_stale_scratch()
     outdir = tempfile.mkdtemp(prefix=f"vsim-{prop}-parent-", dir=kernel.scratch_root())
     harness_errors = []
     results = []
